@@ -319,8 +319,7 @@ DEBUG_JUSTIFIED = [
     ('Bump::alloc_layout_slow', r'mod\(load\[\*\(.{0,60}?(iter_any|galloc\()', 'the new chunk was requested with an alignment the request alignment divides (C04.O3, A4)'),
     ('Bump::alloc_layout_slow', r'is_some\(phi', 'the retry on the fresh chunk succeeds because the chunk was sized for the request (C01.O5); for align > 16 this needs number theory outside the lemma set (stated as not decided)'),
     (r'Bump::(try_)?alloc_slice_\w+', r'eq\(&, &\)', 'Layout::for_value(result) == Layout::array::<T>(len): same element type and count (the owner is a regex: the worker may be inlined into its callers)'),
-    ('Bump::try_alloc_with', r'Assert\((Null|Misaligned)PointerDerefer', 'rustc UB check on &mut *p for p returned by try_alloc_layout: non-null and aligned to align_of::<T>() (C04.O2, C01.O2)'),
-    ('Bump::try_alloc_try_with', r'Assert\((Null|Misaligned)PointerDerefer', 'rustc UB check on a pointer returned by try_alloc_layout (C04.O2, C01.O2)'),
+    (r'Bump::try_alloc(_try)?(_with)?', r'Assert\((Null|Misaligned)PointerDerefer', 'rustc UB check on &mut *p for p returned by try_alloc_layout(Layout::new::<T>()): non-null and aligned to align_of::<T>() (C04.O2, C01.O2); the owner is a regex: the value methods may or may not delegate to each other'),
     ('Bump::try_with_min_align_and_capacity', r"\('lt', '16', 'MIN_ALIGN'\)", 'the required constructor assertion MIN_ALIGN <= CHUNK_ALIGN (C04)'),
     ('Bump::with_min_align', r"\('lt', '16', 'MIN_ALIGN'\)", 'the required constructor assertion MIN_ALIGN <= CHUNK_ALIGN (C04)'),
     ('round_up_to_unchecked', r'.*', 'round_up(size(L), align(L)) cannot overflow: Layout invariant A2 (also in the release table)'),
